@@ -421,6 +421,16 @@ Proof.
   - intros x. rewrite leave_flag, leave_content. cmp x c; [apply is_nil_true|apply (inv_flag s HI)].
 Qed.
 
+(* FixedAgent.remove tests `self in self.cell.agents` first: the same as calling remove_agent and ignoring its ValueError *)
+Lemma fixed_remove_norm s a c :
+  (if memz a (content s c) then
+     (let '(s1, r1) := remove_agent (set_reg s a false) c a in
+      match r1 with Some er => (s1, Err er) | None => (s1, Ok []) end)
+   else (set_reg s a false, Ok [])) =
+  (let '(s1, r1) := remove_agent (set_reg s a false) c a in
+   match r1 with Some er => (s1, Ok []) | None => (s1, Ok []) end).
+Proof. unfold remove_agent. cbn [content set_reg]. destruct (memz a (content s c)); reflexivity. Qed.
+
 Lemma remove_inv s a s' r : Inv s -> remove e s a = (s', r) -> Inv s'.
 Proof.
   intros HI H. unfold remove in H.
@@ -431,7 +441,8 @@ Proof.
   destruct (e_kind e a) eqn:Ek.
   - apply Hset; [congruence|exact H].
   - destruct (ptr s a) as [c|] eqn:Ep.
-    + unfold remove_agent in H. destruct (memz a (content (set_reg s a false) c)) eqn:Em.
+    + rewrite fixed_remove_norm in H.
+      unfold remove_agent in H. destruct (memz a (content (set_reg s a false) c)) eqn:Em.
       * injection H as <- _.
         change (Inv (leave (set_reg s a false) (Some c) a)).
         apply leave_fixed_inv; try assumption.
@@ -578,10 +589,8 @@ Proof.
   destruct (e_kind e a) eqn:Ek.
   - apply Hset; [congruence|exact H].
   - destruct (ptr s a) as [c|] eqn:Ep; [|discriminate].
-    unfold remove_agent in H. destruct (memz a (content (set_reg s a false) c)) eqn:Em; [discriminate|].
-    injection H as <- _. apply eqv_set_reg_same.
-    apply memz_false in Em. simpl in Em.
-    destruct (inv_ptr s HI a c Ep) as [Hin|[_ Hr]]; [contradiction|exact Hr].
+    rewrite fixed_remove_norm in H.
+    unfold remove_agent in H. destruct (memz a (content (set_reg s a false) c)); discriminate.
   - apply Hset; [congruence|exact H].
 Qed.
 
@@ -623,7 +632,8 @@ Proof.
     - intros a' Hne. rewrite (set_cell_reg _ _ _ _ _ H'). simpl. apply upd_other. exact Hne. }
   destruct (e_kind e a); [apply Hset; exact H| |apply Hset; exact H].
   destruct (ptr s a) as [c|].
-  - unfold remove_agent in H. destruct (memz a (content (set_reg s a false) c)); injection H as <- _.
+  - rewrite fixed_remove_norm in H.
+    unfold remove_agent in H. destruct (memz a (content (set_reg s a false) c)); injection H as <- _.
     + split.
       * intros a' x. change (In a' (content (leave (set_reg s a false) (Some c) a) x) -> In a' (content s x)).
         rewrite leave_content. simpl. destruct (Z.eqb_spec x c) as [->|]; [apply remove_first_In|tauto].
@@ -640,9 +650,9 @@ Proof.
   destruct (e_kind e a).
   - eapply set_cell_none_ok; [|exact H]. simpl. exact Hl.
   - destruct (ptr s a) as [c|] eqn:Ep; [|injection H as _ <-; reflexivity].
+    rewrite fixed_remove_norm in H.
     unfold remove_agent in H. simpl in H.
-    assert (memz a (content s c) = true) as Hm by (apply memz_In; apply Hl; reflexivity).
-    rewrite Hm in H. injection H as _ <-. reflexivity.
+    destruct (memz a (content s c)); injection H as _ <-; reflexivity.
   - eapply set_cell_none_ok; [|exact H]. simpl. exact Hl.
 Qed.
 
@@ -668,7 +678,8 @@ Proof.
   - apply Hset; [congruence|exact H].
   - split; [|split; [|congruence]].
     + destruct (ptr s a) as [c|] eqn:Ep.
-      * unfold remove_agent in H. destruct (memz a (content (set_reg s a false) c)) eqn:Em.
+      * rewrite fixed_remove_norm in H.
+        unfold remove_agent in H. destruct (memz a (content (set_reg s a false) c)) eqn:Em.
         -- injection H as <- _. intros x Hin.
            pose proof Hin as Hin'. change (In a (content (leave (set_reg s a false) (Some c) a) x)) in Hin'.
            rewrite leave_content in Hin'. simpl in Hin'.
@@ -680,7 +691,8 @@ Proof.
            apply memz_false in Em. contradiction.
       * injection H as <- _. intros x Hin. simpl in *. apply (inv_listed s HI) in Hin. congruence.
     + destruct (ptr s a) as [c|] eqn:Ep.
-      * unfold remove_agent in H. destruct (memz a (content (set_reg s a false) c)); injection H as <- _; simpl; apply upd_same.
+      * rewrite fixed_remove_norm in H.
+        unfold remove_agent in H. destruct (memz a (content (set_reg s a false) c)); injection H as <- _; simpl; apply upd_same.
       * injection H as <- _. simpl. apply upd_same.
   - apply Hset; [congruence|exact H].
 Qed.
